@@ -92,7 +92,7 @@ def _iter_seq(e: ast.expr, fn: ast.AST) -> list[ast.expr] | None:
     """Elements of `zip(a, b)`, `enumerate(x, start=c)` or a pair-valued local, when the lengths are known."""
     if isinstance(e, ast.Call) and isinstance(e.func, ast.Name) and e.func.id == 'zip' and e.args and not e.keywords:
         lens = [_known_len(a, fn) for a in e.args]
-        if None in lens or len(set(lens)) != 1 or not all(isinstance(a, (ast.Name, ast.Tuple, ast.List)) for a in e.args):
+        if None in lens or len(set(lens)) != 1:
             return None
         return [ast.copy_location(ast.Tuple(elts=[_elem_of(a, j) for a in e.args], ctx=ast.Load()), e) for j in range(lens[0])]
     if isinstance(e, ast.Call) and isinstance(e.func, ast.Name) and e.func.id == 'enumerate' and e.args:
@@ -112,6 +112,11 @@ def _iter_seq(e: ast.expr, fn: ast.AST) -> list[ast.expr] | None:
         n = _known_len(e, fn)
         if n is not None:
             return [_elem_of(e, j) for j in range(n)]
+        # a local bound once to a zip / enumerate and consumed only here
+        defs = [x for x in ast.walk(fn) if isinstance(x, ast.Assign) and len(x.targets) == 1 and isinstance(x.targets[0], ast.Name) and x.targets[0].id == e.id]
+        occ = sum(1 for x in ast.walk(fn) if isinstance(x, ast.Name) and x.id == e.id)
+        if len(defs) == 1 and occ == 2 and isinstance(defs[0].value, ast.Call):
+            return _iter_seq(defs[0].value, fn)
     return None
 
 
@@ -883,7 +888,7 @@ def _unroll(fn: ast.AST, consts: dict[str, ast.expr], log: list[str]) -> None:
                         st.body = nb
                 if isinstance(st, ast.For) and not st.orelse and not _has_jump(st.body) and _const_seq(st.iter, consts) is None:
                     # zip / enumerate over sequences of known length (literal tuples, Conv2d geometry pairs)
-                    seq2 = _iter_seq(st.iter, fn) if isinstance(st.iter, ast.Call) else None
+                    seq2 = _iter_seq(st.iter, fn) if isinstance(st.iter, (ast.Call, ast.Name)) else None
                     tn2 = [n.id for n in ast.walk(st.target) if isinstance(n, ast.Name)]
                     if seq2 is not None and 0 < len(seq2) <= MAX_UNROLL:
                         body_st2 = set()
@@ -903,6 +908,17 @@ def _unroll(fn: ast.AST, consts: dict[str, ast.expr], log: list[str]) -> None:
                                 for b in st.body:
                                     new2.append(sub2.visit(copy.deepcopy(b)))
                             blk[i:i + 1] = new2
+                            for nm_ in {x.id for x in ast.walk(st.iter) if isinstance(x, ast.Name)}:
+                                # a zip / enumerate object bound to a local that only this loop consumed
+                                if sum(1 for x in ast.walk(fn) if isinstance(x, ast.Name) and x.id == nm_) != 1:
+                                    continue
+                                for _o2, b2 in list(_blocks(fn)):
+                                    dead = [x for x in b2 if isinstance(x, ast.Assign) and len(x.targets) == 1 and isinstance(x.targets[0], ast.Name) and x.targets[0].id == nm_
+                                            and isinstance(x.value, ast.Call) and isinstance(x.value.func, ast.Name) and x.value.func.id in ('zip', 'enumerate')]
+                                    for x in dead:
+                                        if b2 is blk and b2.index(x) < i:
+                                            i -= 1
+                                        b2.remove(x)
                             log.append(f'line {st.lineno}: unrolled loop over {len(maps)} elements of {ast.unparse(st.iter)[:50]}')
                             changed = True
                             i += len(new2)
